@@ -53,8 +53,9 @@ theorem pythiaStage_pendingFree (cfg : Cfg) (hc : cfg.shortDeliveryOk = true) (h
 theorem suggestBody_pendingFree (cfg : Cfg) (hc : cfg.shortDeliveryOk = true) (hc2 : cfg.suggestCatchesAll = true)
     (st : Study) (client : String) (count : Nat) (alg : AlgOutcome) (h : PendingFree st) :
     PendingFree (suggestBody cfg st client count alg).2 := by
-  unfold suggestBody
-  simp only [pendingFree_find st h client]
+  rw [suggestBody_of_free _ _ _ _ _ (pendingFree_find st h client)]
+  unfold suggestRest
+  simp only []
   have hnew : ∀ x ∈ st.sugOps ++ [({ client := client, num := (opsOf st client).length + 1, done := false, result := .none } : SugOp)],
       x.done = true ∨ (x.client = client ∧ x.num = (opsOf st client).length + 1) := by
     intro x hx
@@ -73,8 +74,9 @@ theorem suggestBody_fresh_done (cfg : Cfg) (hc : cfg.shortDeliveryOk = true) (hc
     (st : Study) (client : String) (count : Nat) (alg : AlgOutcome) (h : PendingFree st) :
     ∃ o, (suggestBody cfg st client count alg).1.opOf = some o ∧ o.done = true ∧ o.client = client ∧
       o.num = (opsOf st client).length + 1 := by
-  unfold suggestBody
-  simp only [pendingFree_find st h client]
+  rw [suggestBody_of_free _ _ _ _ _ (pendingFree_find st h client)]
+  unfold suggestRest
+  simp only []
   split
   · exact ⟨_, rfl, rfl, rfl, rfl⟩
   · split
@@ -96,8 +98,9 @@ theorem suggestBody_reports_failure (cfg : Cfg) (hc2 : cfg.suggestCatchesAll = t
     (halg : alg = .raisesRpc ∨ alg = .raisesOther)
     (hneed : (ownActive st client).length + (pool st).length < count) :
     ∃ o, (suggestBody cfg st client count alg).1.opOf = some o ∧ o.done = true ∧ o.result = .error := by
-  unfold suggestBody
-  simp only [pendingFree_find st h client]
+  rw [suggestBody_of_free _ _ _ _ _ (pendingFree_find st h client)]
+  unfold suggestRest
+  simp only []
   have hown : (List.filter (fun t => t.state == TState.active && t.client == client) st.trials) = ownActive st client := rfl
   have hpool : (List.filter (fun x => x.state == TState.requested) st.trials) = pool st := rfl
   simp only [hown, hpool]
@@ -116,5 +119,138 @@ theorem suggestBody_reports_failure (cfg : Cfg) (hc2 : cfg.suggestCatchesAll = t
   rcases halg with rfl | rfl
   · exact ⟨_, rfl, rfl, rfl⟩
   · simp only [hc2, if_true]; exact ⟨_, rfl, rfl, rfl⟩
+
+/-! ### resuming an abandoned operation (`Cfg.resumesAbandonedOp`) -/
+
+/-- the answer of `suggestRest` is `op0`, finished: same worker, same number -/
+theorem suggestRest_answer (cfg : Cfg) (hc : cfg.shortDeliveryOk = true) (hc2 : cfg.suggestCatchesAll = true)
+    (op0 : SugOp) (st : Study) (client : String) (count : Nat) (alg : AlgOutcome) :
+    ∃ o, (suggestRest cfg op0 st client count alg).1.opOf = some o ∧ o.done = true ∧ o.client = op0.client ∧
+      o.num = op0.num := by
+  unfold suggestRest
+  simp only []
+  split
+  · exact ⟨_, rfl, rfl, rfl, rfl⟩
+  · split
+    · exact ⟨_, rfl, rfl, rfl, rfl⟩
+    · unfold pythiaStage
+      split
+      · exact ⟨_, rfl, rfl, rfl, rfl⟩
+      · simp only [hc2, if_true]; exact ⟨_, rfl, rfl, rfl, rfl⟩
+      · simp only
+        split
+        · exact ⟨_, rfl, rfl, rfl, rfl⟩
+        · unfold createStage
+          simp only [hc, Bool.not_true, Bool.and_false]
+          exact ⟨_, rfl, rfl, rfl, rfl⟩
+
+/-- every operation of worker `w` is finished -/
+def DoneFor (w : String) (st : Study) : Prop := ∀ x ∈ st.sugOps, x.client = w → x.done = true
+
+/-- every unfinished operation of worker `w` is the record `(c, n)` -/
+def OnlyPending (w : String) (c : String) (n : Nat) (ops : List SugOp) : Prop :=
+  ∀ x ∈ ops, x.client = w → x.done = true ∨ (x.client = c ∧ x.num = n)
+
+theorem putOp_doneFor (w : String) (st : Study) (o : SugOp) (ho : o.done = true)
+    (h : OnlyPending w o.client o.num st.sugOps) : DoneFor w (st.putOp o) := by
+  intro x hx hxw
+  unfold Study.putOp at hx
+  obtain ⟨y, hy, rfl⟩ := List.mem_map.mp hx
+  by_cases hm : (y.client == o.client && y.num == o.num) = true
+  · simp [hm, ho]
+  · simp only [hm] at hxw ⊢
+    rcases h y hy hxw with h1 | h1
+    · simpa using h1
+    · simp [h1.1, h1.2] at hm
+
+theorem createStage_doneFor (cfg : Cfg) (hc : cfg.shortDeliveryOk = true) (w : String) (op0 : SugOp) (st : Study)
+    (need : Nat) (out : List Trial) (sugg : List Sugg) (h : OnlyPending w op0.client op0.num st.sugOps) :
+    DoneFor w (createStage cfg op0 st need out sugg).2 := by
+  unfold createStage
+  simp only [hc, Bool.not_true, Bool.and_false]
+  exact putOp_doneFor w _ _ rfl h
+
+theorem pythiaStage_doneFor (cfg : Cfg) (hc : cfg.shortDeliveryOk = true) (hc2 : cfg.suggestCatchesAll = true)
+    (w : String) (op0 : SugOp) (st : Study) (need : Nat) (out : List Trial) (alg : AlgOutcome)
+    (h : OnlyPending w op0.client op0.num st.sugOps) :
+    DoneFor w (pythiaStage cfg op0 st need out alg).2 := by
+  unfold pythiaStage
+  split
+  · exact putOp_doneFor w st _ rfl h
+  · simp only [hc2, if_true]; exact putOp_doneFor w st _ rfl h
+  · simp only
+    split
+    · exact putOp_doneFor w _ _ rfl (by rw [updateMetadata_sugOps]; exact h)
+    · exact createStage_doneFor cfg hc w op0 _ _ _ _ (by rw [updateMetadata_sugOps]; exact h)
+
+/-- `suggestRest` finishes `op0`: if `op0` was the only unfinished operation of worker `w`, none is left -/
+theorem suggestRest_doneFor (cfg : Cfg) (hc : cfg.shortDeliveryOk = true) (hc2 : cfg.suggestCatchesAll = true)
+    (w : String) (op0 : SugOp) (st : Study) (client : String) (count : Nat) (alg : AlgOutcome)
+    (h : OnlyPending w op0.client op0.num st.sugOps) :
+    DoneFor w (suggestRest cfg op0 st client count alg).2 := by
+  unfold suggestRest
+  simp only []
+  split
+  · exact putOp_doneFor w st _ rfl h
+  · split
+    · exact putOp_doneFor w _ _ rfl (by rw [foldl_putTrial_sugOps]; exact h)
+    · exact pythiaStage_doneFor cfg hc hc2 w _ _ _ _ _ (by rw [foldl_putTrial_sugOps]; exact h)
+
+theorem eq_of_mem_length_le_one {α : Type} {l : List α} (hl : l.length ≤ 1) {a b : α} (ha : a ∈ l) (hb : b ∈ l) :
+    a = b := by
+  match l, hl, ha, hb with
+  | [c], _, ha, hb =>
+    rw [List.mem_singleton] at ha hb
+    rw [ha, hb]
+  | _ :: _ :: _, hl, _, _ => simp at hl
+
+/-- **every worker is answered** (repaired service, ANY study state — in particular every state a crash
+    can leave): the answer of SuggestTrials is a finished operation of the asking worker; an abandoned
+    operation is resumed, not returned as it is -/
+theorem suggestBody_answer_done (cfg : Cfg) (hc : cfg.shortDeliveryOk = true) (hc2 : cfg.suggestCatchesAll = true)
+    (hr : cfg.resumesAbandonedOp = true) (st : Study) (client : String) (count : Nat) (alg : AlgOutcome) :
+    ∃ o, (suggestBody cfg st client count alg).1.opOf = some o ∧ o.done = true ∧ o.client = client ∧
+      o.num = (match (opsOf st client).find? (fun o => !o.done) with
+               | some o0 => o0.num
+               | none => (opsOf st client).length + 1) := by
+  cases hfind : (opsOf st client).find? (fun o => !o.done) with
+  | none =>
+    rw [suggestBody_of_free _ _ _ _ _ hfind]
+    exact suggestRest_answer cfg hc hc2 _ _ _ _ _
+  | some o0 =>
+    rw [suggestBody_of_pending cfg hr _ _ _ _ o0 hfind]
+    exact suggestRest_answer cfg hc hc2 { o0 with client := client } _ _ _ _
+
+/-- … and it leaves no unfinished operation of that worker behind, provided the worker had at most one
+    (every state reachable by calls and crashes: `crash_at_most_one_pending`) -/
+theorem suggestBody_doneFor (cfg : Cfg) (hc : cfg.shortDeliveryOk = true) (hc2 : cfg.suggestCatchesAll = true)
+    (hr : cfg.resumesAbandonedOp = true) (st : Study) (client : String) (count : Nat) (alg : AlgOutcome)
+    (hone : ((opsOf st client).filter (fun o => !o.done)).length ≤ 1) :
+    DoneFor client (suggestBody cfg st client count alg).2 := by
+  cases hfind : (opsOf st client).find? (fun o => !o.done) with
+  | none =>
+    rw [suggestBody_of_free _ _ _ _ _ hfind]
+    apply suggestRest_doneFor cfg hc hc2
+    intro x hx hxc
+    rcases List.mem_append.mp hx with hx | hx
+    · left
+      have hmem : x ∈ opsOf st client := List.mem_filter.mpr ⟨hx, by simp [hxc]⟩
+      have := List.find?_eq_none.mp hfind x hmem
+      simpa using this
+    · simp only [List.mem_singleton] at hx; subst hx; exact Or.inr ⟨rfl, rfl⟩
+  | some o0 =>
+    rw [suggestBody_of_pending cfg hr _ _ _ _ o0 hfind]
+    apply suggestRest_doneFor cfg hc hc2
+    intro x hx hxc
+    by_cases hd : x.done = true
+    · exact Or.inl hd
+    · right
+      have hx' : x ∈ (opsOf st client).filter (fun o => !o.done) :=
+        List.mem_filter.mpr ⟨List.mem_filter.mpr ⟨hx, by simp [hxc]⟩, by simp [hd]⟩
+      have ho' : o0 ∈ (opsOf st client).filter (fun o => !o.done) :=
+        List.mem_filter.mpr ⟨List.mem_of_find?_eq_some hfind, List.find?_some (p := fun o : SugOp => !o.done) hfind⟩
+      have e : x = o0 := eq_of_mem_length_le_one hone hx' ho'
+      subst e
+      exact ⟨hxc, rfl⟩
 
 end VizierModel.Svc
